@@ -115,6 +115,7 @@ type Morass struct {
 	chunkSize int
 	pool      chan sorter
 	writable  chan sorter
+	writers   sync.WaitGroup
 
 	filesLock sync.Mutex
 	files     files
@@ -181,6 +182,7 @@ func (m *Morass) Push(e LessInterface) error {
 	if len(m.chunk) == m.chunkSize {
 		verifStep("push.send", 0)
 		m.writable <- m.chunk
+		m.writers.Add(1)
 		go m.write()
 		verifStep("push.recv", 0)
 		m.chunk = <-m.pool
@@ -200,6 +202,7 @@ func (m *Morass) Push(e LessInterface) error {
 }
 
 func (m *Morass) write() {
+	defer m.writers.Done()
 	defer verifStep("write.done", 0)
 	verifStep("write.recv", 0)
 	writing := <-m.writable
@@ -276,7 +279,9 @@ func (m *Morass) Finalise() error {
 				verifStep("finalise.write", 0)
 				m.writable <- m.chunk
 				m.chunk = nil
+				m.writers.Add(1)
 				m.write()
+				m.writers.Wait()
 				if err := m.err(); err != nil {
 					return err
 				}
